@@ -140,20 +140,20 @@ CHECKS = {
 ADDENDA = {
     "C01": " Also: two-step flows with the first step applied in place on the caller's own tree after find_nodes(); a sample of the sessions repeated in a child interpreter started with -O; trees whose nodes share ids; exponents of any size judged through exponent arithmetic modulo p-1; results handed out earlier re-inspected after later calls.",
     "C02": " Also: equations whose first fold leaves numpy scalars, shared-id equations, second steps with the same rule objects, the -O child, earlier results re-inspected after later calls.",
-    "C03": " Also: every text twice on one parser and once on a long-lived parser that has seen look-alikes, process-history noise between observations, CR LF pairs, control characters, texts with 60..170 function calls, integer literals around CPython's 4300-digit limit (known finding) and, in the thorough tier, with the limit lifted.",
+    "C03": " Also: every text twice on one parser and once on a long-lived parser that has seen look-alikes, process-history noise between observations, CR LF pairs, control characters, texts with 60..170 function calls, integer literals around CPython's 4300-digit limit (known finding).",
     "C04": " Also: Printer.tla (implementation-shaped printer model, MC_Printer round-trips it through the reference grammar); printed text is re-parsed by a long-lived parser that has seen look-alikes; read-only calls and unrelated failing API calls precede printing; big-count texts printed after one distributive step.",
-    "C05": " Also: the sign view NonNeg (signed zeros, sign of infinities) and the type view IntTyped (factorials of hundreds of thousands stay integers) of EvalBig.tla; assignments handed over as read-only proxies / ChainMaps / defaultdicts and required to be unchanged; user-defined literal subclasses; integers of up to 5001 digits.",
-    "C06": " Also: used vs brand-new vs process-long rule objects, answers recorded earlier in the process for fixed trees, answers under a strict numpy error state, rule objects constructed in the opposite order, searches started at inner nodes, keyword call forms, narrowed rule subclasses, a second round of asking and applying on rewrite results (nan / inf / huge coefficients).",
+    "C05": " Also: the sign view NonNeg (signed zeros, sign of infinities) and the type view IntTyped (factorials of hundreds of thousands stay integers) of EvalBig.tla; assignments handed over as dict subclasses (OrderedDict, defaultdict) and required to be unchanged; integers of up to 5001 digits; an exact rational view for equations between non-integer sides.",
+    "C06": " Also: used vs brand-new vs process-long rule objects, answers recorded earlier in the process for fixed trees, rule objects constructed in the opposite order, searches started at inner nodes, a second round of asking and applying on rewrite results (nan / inf / huge coefficients).",
     "C07": " Also: the rule must be handed the counterpart of the node that was asked about (worked_on_another_node); shared-id trees; in-place first steps; earlier results re-inspected after later calls.",
-    "C08": " Also: each instance asked again under a strict numpy error state, with float-typed whole exponents, with variable names that are equal but not identical strings, with both rule-construction call forms, and refused instances again with the two variables differing by case only.",
-    "C09": " Also: sessions mixing clone-per-step with in-place steps after find_nodes(), with working copies taken by copy.deepcopy / pickle, read-only calls after every step, integers of a thousand bits; TLC-generated model sessions (MC_RulesImpl_scripts) replayed into the real rules.",
-    "C10": " Also: histories with reconfigured / replaced tokenizers, twin parsers made by copy.copy, calls made from deep inside the caller's recursion, ValueError-type failures inside open groups repeated 130 times, brand-new parsers asked after the history.",
-    "C11": " Also: one long-lived reconfigured Tokenizer per process answers every question too, both construction call forms, function tables with new name lengths and None values, every token object handed out is edited, all ASCII control characters, CR LF pairs.",
-    "C12": " Also: ParserObject.tla models the tokenizer configuration (Configure, stale entries, ClearDropsTokens), Token objects inside the lists (CopyTokens, ClientMutate) and calls that run out of stack (DeepCall); five necessity variants are refuted by TLC; histories edit token objects and the parser's cursor attributes and use shallow-copied twin parsers.",
-    "C13": " Also: independence observed through str, MathML, terminal text, classes, change marks, layout coordinates and r_index after public-API mutations and in-place edits of the classes list; incomplete trees (a one-operand node without operand).",
-    "C14": " Also: start depth / data parameters, stop signals that are equal but not identical, odd visitor answers, raising and pruning visitors, look-ups repeated after in-place edits (rotate, re-attach with the optional flag, swapped operands, new root), falsy ids, trees obtained through copy.deepcopy.",
-    "C16": " Also: factor tables of big squares / k(k+1) up to 2^31, factor(n) asked again after the caller edited the table, integers of 401 digits as exponents and coefficients in every term predicate.",
-    "C17": " Also: hold-outs given as list / tuple / set / dict view, hold-outs outside the pool, exclusions as instances of the exported subclass, keyword and positional call forms.",
+    "C08": " Also: each instance asked again with float-typed whole exponents, with variable names that are equal but not identical strings, with both rule-construction call forms, and refused instances again with the two variables differing by case only.",
+    "C09": " Also: sessions mixing clone-per-step with in-place steps after find_nodes(), read-only calls after every step, integers of a thousand bits; TLC-generated model sessions (MC_RulesImpl_scripts) replayed into the real rules.",
+    "C10": " Also: histories with reconfigured / replaced tokenizers (reported as notes), calls made from deep inside the caller's recursion, ValueError-type failures inside open groups repeated 130 times, brand-new parsers asked after the history.",
+    "C11": " Also: one long-lived reconfigured Tokenizer per process answers every question too, both construction call forms, function tables with new name lengths, all ASCII control characters, CR LF pairs.",
+    "C12": " Also: ParserObject.tla models the tokenizer configuration (Configure, stale entries, ClearDropsTokens), Token objects inside the lists (CopyTokens, ClientMutate) and calls that run out of stack (DeepCall); five necessity variants are refuted by TLC; histories edit the token objects of the lists the parser hands out; reconfiguration histories are reported as notes.",
+    "C13": " Also: independence observed through str, MathML, terminal text, classes, change marks, layout coordinates and r_index after public-API mutations and in-place edits of the classes list.",
+    "C14": " Also: start depth / data parameters, stop signals that are equal but not identical, odd visitor answers, raising visitors (pruning visitors as notes), look-ups repeated after in-place edits (rotate, re-attach with the optional flag, swapped operands, new root), falsy ids.",
+    "C16": " Also: factor tables of big squares / k(k+1) up to 2^31, integers of 401 digits as exponents and coefficients in every term predicate.",
+    "C17": " Also: hold-outs outside the pool, exclusions as instances of the exported subclass, keyword and positional call forms.",
     "C18": " Also: a fixed family of 2,500 (12,000) shapes with 11..48 nodes judged against the listed signatures, layout called on subtrees of a larger tree, one layout object reused with a decoy tree between measurements, rows exact for units that are not exactly representable.",
 }
 for _pid, _add in ADDENDA.items():
